@@ -13,42 +13,44 @@ def check(run):
                        "all 3x2 cutting / pivoting strategies, each solved fresh and then after 0-2 incremental steps (new constraint, new variable, "
                        "new parameter); every logged tree is evaluated by specs/pip/PipTrace.tla on all parameter valuations in 0..4 and compared "
                        "with the brute-force lexicographic minimum in 0..7; distinct = distinct (variables, parameters, strategy, step, status) classes")
-    n = 1500 if q else 20000
-    t0 = time.time()
-    r = subprocess.run(["timeout", "1500", exe, str(n), str(run.seed)], stdout=subprocess.PIPE)
-    if r.returncode != 0:
-        run.fatal("pip harness failed")
-    lines = r.stdout.decode().splitlines()
-    t1 = time.time()
-    bad, tot, failed = tracelib.validate_lines(run, os.path.join(SPEC, "PipTrace.tla"), os.path.join(SPEC, "PipTrace.cfg"), lines, nchunks=max(1, len(lines) // 150))
-    run.cov["evaluations"] += len(lines)
-    run.cov["traces_validated_against_impl"] += tot.get("lines", 0)
-    run.cov["undecided"] += len(failed)
-    for l in lines:
-        j = json.loads(l)
-        run.distinct.add((len(j["vars"]), len(j["pars"]), j["cut"], j["piv"], min(j["step"], 2), j["status"]))
-    core.log("pip: %d solves (gen+solve %.1fs, validate %.1fs), %d rejected verdict kinds, %d tlc-failed" % (len(lines), t1 - t0, time.time() - t1, len(bad), len(failed)))
-    if lines:
-        j = json.loads(lines[len(lines) // 2])
-        run.sample({"vars": j["vars"], "pars": j["pars"], "constraints": j["cs"], "status": j["status"], "tree": j["tree"]}, cap=2)
-    groups = collections.OrderedDict()
-    for b in bad:
-        j = json.loads(lines[b["line"]])
-        shape = "fresh-problem" if j["step"] == 0 else "after-incremental-modification"
-        groups.setdefault((b["why"], shape), []).append({"vars": j["vars"], "pars": j["pars"], "constraints": [(c["k"], c["v"]) for c in j["cs"]], "cut": j["cut"], "piv": j["piv"],
-                                                         "step": j["step"], "parameter_values": b["pv"], "point": b["x"], "status": j["status"]})
-    nfresh = sum(1 for l in lines if '"step":0,' in l)
-    nincr = len(lines) - nfresh
-    for (why, shape), wit in groups.items():
-        run.violation({"why": why, "shape": shape}, {"witnesses": wit[:6], "count": len(wit)})
-        # The PIP solver has known rare defects of every kind (see known_findings.json); so that they cannot hide a regression,
-        # the RATE of each kind is bounded as well (measured on the unchanged tree over 120 000 solves: wrong bottom 1.3 %, every
-        # other kind below 0.06 % of the fresh solves; about 10 % of the incremental re-solves are wrong)
-        base = nfresh if shape == "fresh-problem" else nincr
-        limit = (0.04 if why == "C07:bottom-but-feasible" else 0.006) if shape == "fresh-problem" else 0.12
-        if base >= 300 and len(wit) > max(6, limit * base):
-            run.violation({"why": "C07:rate-of-known-defect-exceeded", "shape": shape + ":" + why},
-                          {"kind": why, "count": len(wit), "solves": base, "limit": limit, "witnesses": wit[:6]})
+    import hashlib
+    for profile, n in ((0, 1500 if q else 20000), (1, 2500 if q else 24000)):
+        t0 = time.time()
+        r = subprocess.run(["timeout", "2500", exe, str(n), str(run.seed), str(profile)], stdout=subprocess.PIPE)
+        if r.returncode != 0:
+            run.fatal("pip harness failed")
+        lines = r.stdout.decode().splitlines()
+        t1 = time.time()
+        bad, tot, failed = tracelib.validate_lines(run, os.path.join(SPEC, "PipTrace.tla"), os.path.join(SPEC, "PipTrace.cfg"), lines,
+                                                   nchunks=max(1, len(lines) // (150 if profile == 0 else 40)), timeout=1800)
+        run.cov["evaluations"] += len(lines)
+        run.cov["traces_validated_against_impl"] += tot.get("lines", 0)
+        run.cov["undecided"] += len(failed)
+        first = {}
+        for l in lines:
+            j = json.loads(l)
+            run.distinct.add((len(j["vars"]), len(j["pars"]), j["cut"], j["piv"], min(j["step"], 2), j["status"]))
+            if j["step"] == 0:
+                first[j["id"]] = j["cs"]
+        core.log("pip profile %d: %d solves (gen+solve %.1fs, validate %.1fs), %d rejected verdicts, %d tlc-failed" % (profile, len(lines), t1 - t0, time.time() - t1, len(bad), len(failed)))
+        if lines:
+            j = json.loads(lines[len(lines) // 2])
+            run.sample({"vars": j["vars"], "pars": j["pars"], "constraints": j["cs"], "status": j["status"], "tree": j["tree"]}, cap=3)
+        # a failing solve is identified by its input: the problem data at that step, the strategy, and (for a re-solve) the data first solved
+        groups = collections.OrderedDict()
+        seen = set()
+        for b in bad:
+            j = json.loads(lines[b["line"]])
+            shape = "fresh-problem" if j["step"] == 0 else "after-incremental-modification"
+            key = hashlib.sha1(json.dumps([j["vars"], j["pars"], j["cs"], j["cut"], j["piv"], j["step"], first.get(j["id"]) if j["step"] else None], sort_keys=True).encode()).hexdigest()[:12]
+            wit = {"vars": j["vars"], "pars": j["pars"], "constraints": [(c["k"], c["v"]) for c in j["cs"]], "cut": j["cut"], "piv": j["piv"],
+                   "step": j["step"], "parameter_values": b["pv"], "point": b["x"], "status": j["status"], "input": key}
+            groups.setdefault((b["why"], shape), []).append(wit)
+            if (b["why"], key) not in seen:
+                seen.add((b["why"], key))
+                if os.environ.get("VERIF_COLLECT"):      # maintenance aid (tools/c07_known.py): never used by the registered commands
+                    open(os.environ["VERIF_COLLECT"], "a").write(json.dumps([b["why"], shape, key]) + "\n")
+                run.violation({"why": b["why"], "shape": shape, "input": key}, wit)
 
 
 def replay(v):
